@@ -12,6 +12,8 @@ from .ooxml import _rand_image
 from .tokens import Tokens
 
 HTML_FEATURES = {
+    "trailing-ampersand-text": "the markup ends in running text, without closing tags, whose last word holds a bare '&' (twin: the word 'and')",
+    "empty-table": "a table whose cells are all empty between two filled tables (twin: its first cell is filled)",
     "nested-table": "a table inside a td (twin: the inner table after the outer one)",
     "nested-table-deep": "a table in a cell of a table in a cell of a table (twin: the same three tables with one level of nesting)",
     "cell-two-paragraphs": "<td><p>A</p><p>B</p></td> (twin: <td>A B</td>)",
@@ -23,6 +25,7 @@ HTML_FEATURES = {
 EPUB_FEATURES = {
     "href-plus": "a chapter file whose name contains '+' (twin: plain name)",
     "href-percent-encoded": "a chapter file whose name contains a blank and a non-ASCII letter, percent-encoded in the manifest href (twin: plain name)",
+    "empty-table": "a table whose cells are all empty between two filled tables (twin: its first cell is filled)",
     "nested-table": "a table inside a td (twin: sequential tables)",
     "nested-table-deep": "a table in a cell of a table in a cell of a table (twin: the same three tables with one level of nesting)",
     "non-xhtml-spine-item": "an image item listed in the spine between two chapters (twin: not in the spine)",
@@ -65,13 +68,14 @@ def _body(rng, tk: Tokens, exp: Expect, unit: int, feature, twin, xhtml: bool, t
                 parts.append(" ".join(w("v", 1, 2)))
         return " ".join(parts)
 
-    def table(rows, cols, nested=None, feat=None):
+    def table(rows, cols, nested=None, feat=None, blank=None):
+        """blank: None = random empty cells; "all" = every cell empty; "all-but-first" = its control twin."""
         grid, trs = [], []
         for i in range(rows):
             tds, grow = [], []
             for j in range(cols):
                 tag = "th" if i == 0 and rng.random() < 0.5 else "td"
-                if rng.random() < 0.1 and (i or j):
+                if (rng.random() < 0.1 and (i or j)) if blank is None else (blank == "all" or (i, j) != (0, 0)):
                     tds.append(f"<{tag}></{tag}>")
                     grow.append({"empty": True})
                     continue
@@ -135,6 +139,12 @@ def _body(rng, tk: Tokens, exp: Expect, unit: int, feature, twin, xhtml: bool, t
                     exp.nested_tables = 2
                     exp.tables_claimed = False
                     out.append(o)
+            elif feature == "empty-table":
+                for k, bl in enumerate((None, "all-but-first" if twin else "all", None)):
+                    xml, g = table(2, 2 + (k == 1), blank=bl)
+                    exp.tables.append({"grid": g, "unit": unit + 1})
+                    out.append(xml)
+                    out.append(f"<p>{' '.join(w('b', 1, 2))}</p>")
             elif feature == "nested-table-deep":
                 if twin:         # the same three tables, one level of nesting only
                     o, og = table(2, 2, nested=lambda: table(2, 2)[0])
@@ -176,9 +186,14 @@ def _html_doc(seed, feature, twin, fmt):
             "keywords": exp.ignore(tk.new("t")), "description": exp.ignore(tk.new("t")) + rng.choice(pay)}
     exp.meta = dict(meta)
     body = _body(rng, tk, exp, 0, feature, twin, xhtml=False, tables_in_text=True)
+    tail = "</body></html>"
+    if feature == "trailing-ampersand-text":
+        # the markup ends in running text (no closing tags) whose last word holds a bare '&' (twin: the word 'and')
+        a, b = exp.text(tk.new("b"), 0), exp.text(tk.new("b"), 0)
+        tail = f"<p>{a} {b} R and D" if twin else f"<p>{a} {b} R&D"
     html = (f'<!DOCTYPE html><html lang="en"><head><meta charset="utf-8"><title>{escape(meta["title"])}</title>'
             f'<meta name="author" content="{escape(meta["author"], {chr(34): "&quot;"})}"><meta name="keywords" content="{meta["keywords"]}">'
-            f'<meta name="description" content="{escape(meta["description"], {chr(34): "&quot;"})}"></head><body>{body}</body></html>')
+            f'<meta name="description" content="{escape(meta["description"], {chr(34): "&quot;"})}"></head><body>{body}{tail}')
     return html.encode("utf-8"), exp
 
 
@@ -231,7 +246,7 @@ def build_epub(seed, feature=None, twin=False):
         elif empty:
             body = "<p> </p>"
         else:
-            body = _body(rng, tk, exp, c, feature if (c == fch and feature in ("nested-table", "nested-table-deep")) else None, twin, xhtml=True, tables_in_text=False)
+            body = _body(rng, tk, exp, c, feature if (c == fch and feature in ("nested-table", "nested-table-deep", "empty-table")) else None, twin, xhtml=True, tables_in_text=False)
         ttl = exp.ignore(tk.new("t"))
         # chapter file names: plain, with '+', or with a blank (written percent-encoded in the manifest, as an IRI reference must be)
         style = "plain" if feature not in (None, "href-plus", "href-percent-encoded") else fname_rng.choice(["plain"] * 5 + ["plus"] * 2)
